@@ -30,7 +30,17 @@ structure MInfoG where
   refund : Acc → Option Int := fun _ => none
   deriving Inhabited
 
+/-- the local `inOutCoins` record of `AllocateSellingCoin` / `RefundPayingCoin` -/
+structure IOC where
+  bidder : Acc := 0
+  input : BankIn := default
+  outputs : List BankOut := []
+  deriving Repr, Inhabited
+
 namespace Go
+
+/-- `sort.Strings` on bidder addresses (accounts are numbered in bech32-string order) -/
+def sortAcc (l : List Acc) : List Acc := l.mergeSort (fun a b => decide (a ≤ b))
 
 /-- the loop of Go's `sort.Search`: `i, j := 0, n; for i < j { h := int(uint(i+j) >> 1); if !f(h) { i = h + 1 } else { j = h } }`,
     with the state the closure `f` carries threaded through; `fuel` bounds the iterations (`n` is enough) -/
